@@ -214,7 +214,7 @@ Definition alloc_dyn (st : state) (k : dkey) (o : obj) : uid * state :=
              ((k, st_next st) :: st_cache st) (st_src st) (N.succ (st_next st)) (st_handles st) (st_ftab st)) in
   match lookupD k (st_cache st) with
   | Some u => match get_obj st u with
-              | Some o' => if obj_eqb o' o then (u, st) else fresh
+              | Some o' => if obj_eqb o' o && negb (alive st u) then (u, st) else fresh
               | None => fresh
               end
   | None => fresh
@@ -288,8 +288,7 @@ Definition parents_of (st : state) (l : list uid) : list uid :=
 
 (** names defined along the ancestors of T *)
 Definition avail (st : state) (T : uid) : list string :=
-  dedupS (flat_map (fun A => map fst (filter (fun e => alive st (snd e) && is_defined st (snd e))
-                                             (c_cells (get_cont st A)))) (ancs_of st T)).
+  dedupS (flat_map (fun A => filter (defines st A) (map fst (c_cells (get_cont st A)))) (ancs_of st T)).
 
 Definition missing (st : state) (T : uid) : list string :=
   filter (fun n => match lookupS n (c_cells (get_cont st T)) with Some _ => false | None => true end)
@@ -501,8 +500,10 @@ Definition step_new_cells (st : state) (s : uid) (name : string) : state * out :
   else
     let c := st_next st in
     let st1 := new_cells_obj st s name false in
+    (* the sub spaces that do not have the name yet get a derived copy *)
     let targets := filter (fun T => match lookupS name (c_cells (get_cont st T)) with
-                                    | Some _ => false | None => true end) (subs_of st s) in
+                                    | Some _ => false | None => true end
+                                    && has_definer st1 T name) (subs_of st s) in
     let st2 := fold_left (fun a T => new_cells_obj a T name true) targets st1 in
     let Ts := s :: targets in
     (push_handle (ns_change st2 Ts (flat_map (dyn_roots st2) Ts)) c, ODone).
@@ -531,7 +532,7 @@ Definition create_derived (st : state) (visited : list uid) : state :=
   ns_change st1 changed (flat_map (items_of st1) changed).
 
 Definition step_del_cells (st : state) (s c : uid) : state * out :=
-  if is_derived st c then (st, ORejected)
+  if negb (is_defined st c) then (st, ORejected)     (* "cannot delete derived" *)
   else
     let visited := s :: subs_of st s in
     let st1 := clear_derived (purge (under_set st [c]) st) visited in
